@@ -74,6 +74,121 @@ def run_world(pid, scenario, forced_trace=None, keep_world=False):
     return out
 
 
+_preimported = False
+
+
+def _preimport():
+    """import (not run) everything a world may need, once per parent process, so that the forked world processes do not
+    each pay for the imports; importing leaves the library in its pristine module-level state"""
+    global _preimported
+    if _preimported:
+        return
+    import importlib
+    import pkgutil
+
+    from . import instrument
+
+    instrument.install()
+    try:
+        import rpylib
+
+        for m in pkgutil.walk_packages(rpylib.__path__, "rpylib."):
+            if ".tests" in m.name or m.name.endswith(".tests"):
+                continue
+            try:
+                importlib.import_module(m.name)
+            except Exception:
+                pass  # optional plotting / benchmark dependencies
+    except Exception:
+        pass
+    for name in ("builders", "stubs", "mlmc_stub", "c02nd", "c15nd"):
+        try:
+            importlib.import_module("scenarios." + name)
+        except Exception:
+            pass
+    _preimported = True
+
+
+def run_world_isolated(pid, scenario, forced_trace=None, deadline=1400.0):
+    """One world = one OS process image: the world runs in a child forked from a process that has imported the library
+    but never executed a world, so process-global state of the library (a class-level cache, a module-level counter - the
+    kind of thing a defective tree may introduce) cannot leak from one world into the next and a world's outcome is a
+    function of (scenario, decision trace, tree) alone - the same in a worker, in the minimiser and in a fresh interpreter.
+    VERIF_NO_FORK=1 runs in-process (used by the coverage aid)."""
+    if os.environ.get("VERIF_NO_FORK") or os.environ.get("VERIF_COVER"):
+        return run_world(pid, scenario, forced_trace=forced_trace)
+    import pickle
+    import select
+
+    from .bootstrap import bootstrap
+
+    bootstrap()
+    load_prop(pid)
+    _preimport()
+    r, w = os.pipe()
+    sys.stdout.flush()
+    sys.stderr.flush()
+    child = os.fork()
+    if child == 0:
+        code = 0
+        try:
+            os.close(r)
+            try:  # die with the parent (a killed worker must not leave a world spinning in native code)
+                import ctypes
+
+                ctypes.CDLL("libc.so.6", use_errno=True).prctl(1, 9)  # PR_SET_PDEATHSIG, SIGKILL
+            except Exception:
+                pass
+            try:
+                out = run_world(pid, scenario, forced_trace=forced_trace)
+                data = pickle.dumps(out)
+            except BaseException as e:  # MemoryError while pickling etc.
+                data = pickle.dumps({"__fork_error__": "".join(traceback.format_exception(type(e), e, e.__traceback__)[-4:])})
+            with os.fdopen(w, "wb") as f:
+                f.write(data)
+        except BaseException:
+            code = 3
+        finally:
+            os._exit(code)
+    os.close(w)
+    chunks = []
+    t_end = _real_time() + deadline
+    failed = None
+    with os.fdopen(r, "rb") as f:
+        while True:
+            left = t_end - _real_time()
+            if left <= 0:
+                failed = f"world did not finish within {deadline:.0f}s"
+                break
+            ready, _, _ = select.select([f], [], [], min(left, 5.0))
+            if ready:
+                b = os.read(f.fileno(), 1 << 20)
+                if not b:
+                    break
+                chunks.append(b)
+    if failed:
+        try:
+            os.kill(child, 9)
+        except OSError:
+            pass
+    try:
+        os.waitpid(child, 0)
+    except OSError:
+        pass
+    out = None
+    if not failed:
+        try:
+            out = pickle.loads(b"".join(chunks))
+            if "__fork_error__" in out:
+                failed, out = "world process failed: " + out["__fork_error__"], None
+        except Exception as e:
+            failed = "world process ended without a result: " + repr(e)
+    if out is None:
+        out = {"pid": pid, "world_seed": scenario.get("world_seed"), "violations": [], "harness_error": failed, "errors": [],
+               "info": {}, "digest": "", "trace": [], "probes": {}, "faults": {}, "sim_seconds": 0.0, "n_events": 0, "wall": 0.0}
+    return out
+
+
 def outcome_digest(out):
     """digest of everything observable of a world: event log + verdicts (used by determinism self-tests)"""
     h = hashlib.sha256()
@@ -111,7 +226,7 @@ def _batch(args):
     outs = []
     for s in seeds:
         sc = mod.generate(s, tier)
-        o = run_world(pid, sc)
+        o = run_world_isolated(pid, sc, deadline=float(os.environ.get("VERIF_WORLD_DEADLINE", 150 if tier == "quick" else 900)))
         # compact: drop the trace unless something happened
         slim = {k: o[k] for k in ("world_seed", "violations", "harness_error", "errors", "probes", "faults",
                                   "sim_seconds", "n_events", "wall", "key", "nontrivial", "digest") if k in o}
@@ -206,7 +321,7 @@ def known_open(pid):
 # minimisation
 # ------------------------------------------------------------------------------------------------
 def reproduces(pid, scenario, trace, sig):
-    o = run_world(pid, scenario, forced_trace=trace)
+    o = run_world_isolated(pid, scenario, forced_trace=trace, deadline=float(os.environ.get("VERIF_WORLD_DEADLINE", 150)))
     if o["harness_error"]:
         return False, o
     return any(v["sig"] == sig for v in o["violations"]), o
